@@ -319,10 +319,26 @@ func (c16) Gen(seed uint64, run int, tier string) *Plan {
 			}
 		}
 		x := r.Intn(100)
+		if inPar == 0 && r.Intn(30) == 0 {
+			// one operator's HTTP listener fails to start (its port is taken) while another operator
+			// adds a listener of another kind under the same name
+			ni := r.Intn(3)
+			emit(Action{Kind: "par", A: 2})
+			emit(Action{Kind: "ladd", A: 0, B: ni, C: 0, L: []int{0, r.Intn(3), r.Intn(3), r.Intn(3), 0}})
+			emit(Action{Kind: "ladd", A: 1, B: ni, C: 1 + r.Intn(2), D: 0})
+			if kind[c16Names[ni]] == 0 {
+				kind[c16Names[ni]] = 2
+			}
+			continue
+		}
 		if x < 12 && inPar == 0 && i+2 < n {
 			g := 2 + r.Intn(3)
 			emit(Action{Kind: "par", A: g})
 			inPar = g + 1
+			continue
+		}
+		if inPar > 0 && r.Intn(5) == 0 {
+			emit(Action{Kind: "olog"})
 			continue
 		}
 		svcShare := []int{15, 75, 45}[focus]
@@ -386,6 +402,7 @@ type c16Shared struct {
 }
 
 type c16State struct {
+	midObs *world.Operator // an operator that logged in in the middle of the current group
 	shared   []c16Shared // registrations under the shared agent type name, not yet resolved
 	curGroup []Action // the actions injected together right now
 	w      *world.World
@@ -589,6 +606,24 @@ func c16AddPort(a Action) int { return c16Ports[c16l(a, 0)%len(c16Ports)] }
 func (st *c16State) inject(a Action, pre []c16Entry) {
 	w, res := st.w, st.res
 	switch a.Kind {
+	case "olog":
+		// an operator connects and authenticates (not waited for)
+		if st.midObs != nil {
+			return
+		}
+		cfg := w.Cfg.Operators[len(w.Cfg.Operators)-1]
+		for _, c := range w.Cfg.Operators {
+			if c.Name == c16Observer {
+				cfg = c
+			}
+		}
+		o := w.NewOperator(cfg.Name, cfg.Password)
+		if o.WS = w.DialWS("/havoc/"); o.WS == nil {
+			return
+		}
+		o.AuthSent = true
+		o.SendJSON(o.AuthMessage())
+		st.midObs = o
 	case "ladd":
 		o := st.op(a.A)
 		name := c16Name(a)
@@ -932,6 +967,21 @@ func (st *c16State) advertised() (map[string]bool, bool) {
 		res.Violate("C16", "observer-login-failed", "fresh-operator", "a fresh operator with correct credentials could not log in", w.Sim)
 		return nil, false
 	}
+	adv := st.foldListenerEvents(o)
+	o.Disconnect()
+	w.Sim.Settle()
+	return adv, true
+}
+
+// foldListenerEvents: the set of built-in listeners an operator holds after everything it has been
+// sent since its authentication (replay and live events alike).
+func (st *c16State) foldListenerEvents(o *world.Operator) map[string]bool {
+	return st.foldListenerEventsOf(o, true)
+}
+
+// (ownErrors: whether error reports addressed to the operator itself - answers to its own requests -
+// are applied as the client applies them)
+func (st *c16State) foldListenerEventsOf(o *world.Operator, ownErrors bool) map[string]bool {
 	adv := map[string]bool{}
 	started := false
 	for _, e := range o.Events {
@@ -958,13 +1008,17 @@ func (st *c16State) advertised() (map[string]bool, bool) {
 				continue
 			}
 			adv[name] = true
-		case world.ListenerRemove, world.ListenerError:
+		case world.ListenerRemove:
 			delete(adv, name)
+		case world.ListenerError:
+			// (the client applies an error report only if it answers its own request or is
+			// addressed to everybody: client/src/Havoc/Packager.cc)
+			if u := e.Pkg.Head.User; u == "" || (u == o.Name && ownErrors) {
+				delete(adv, name)
+			}
 		}
 	}
-	o.Disconnect()
-	w.Sim.Settle()
-	return adv, true
+	return adv
 }
 
 func c16keys(m map[string]bool) []string {
@@ -1066,6 +1120,48 @@ func (st *c16State) evaluate(group []Action, pre []c16Entry, afterDisconnect boo
 		res.Violate("C16", "sets-differ", strings.Join(in, "+")+"-only:"+where,
 			fmt.Sprintf("listener %q: running=%v persisted=%v advertised=%v (in registry=%v); running=%v persisted=%v advertised=%v",
 				name, r, p, a, registry[name], c16keys(running), c16keys(pers), c16keys(adv)), w.Sim)
+	}
+
+	// 2a. the operators who have been logged in all along hold the same set: what they were replayed
+	// at their login plus every live event since (answers to their own refused requests aside -
+	// the client marks the listener of the refused name, which is the client's business)
+	for _, o := range st.ops {
+		if len(res.Violations) > before {
+			break
+		}
+		held := st.foldListenerEventsOf(o, false)
+		for _, name := range c16keys(all) {
+			if running[name] != held[name] && running[name] == pers[name] && pers[name] == adv[name] {
+				res.Violate("C16", "sets-differ", "operator-logged-in-all-along:"+map[bool]string{true: "missing", false: "leftover"}[running[name]],
+					fmt.Sprintf("listener %q: running=%v, but operator %s, logged in all along, holds advertised=%v after the events it was sent (holds %v, running %v)", name, running[name], o.Name, held[name], c16keys(held), c16keys(running)), w.Sim)
+				break
+			}
+		}
+		res.Probe("views-of-logged-in-operators-checked")
+	}
+
+	// 2b. an operator who logged in while the group was running (its replay interleaved with the
+	// adds and removes) holds the same set now
+	if o := st.midObs; o != nil {
+		st.midObs = nil
+		o.Pump()
+		authed := false
+		for _, e := range o.Events {
+			authed = authed || isAuthSuccess(e)
+		}
+		if authed {
+			mid := st.foldListenerEvents(o)
+			res.Probe("operators-logged-in-mid-group")
+			for _, name := range c16keys(all) {
+				if running[name] != mid[name] && running[name] == pers[name] && pers[name] == adv[name] {
+					res.Violate("C16", "sets-differ", "operator-who-logged-in-meanwhile:"+map[bool]string{true: "missing", false: "leftover"}[running[name]],
+						fmt.Sprintf("listener %q: running=%v, but an operator who logged in while listeners were added and removed ends up with advertised=%v (holds %v, running %v)", name, running[name], mid[name], c16keys(mid), c16keys(running)), w.Sim)
+					break
+				}
+			}
+		}
+		o.Disconnect()
+		w.Sim.Settle()
 	}
 
 	// 3. no port accepts connections without a listener behind it; a removed HTTP listener refuses
